@@ -579,7 +579,11 @@ def _append_nans(result, axis, first=False):
 
     axis: `int`
     """
-    nan_slice = np.empty_like(result.take([0], axis=axis)) # make a slice ...
+    # make a slice (also when `result` is empty along axis, and of a type that can hold NaN) ...
+    shape = list(result.shape)
+    shape[axis] = 1
+    dtype = result.dtype if result.dtype.kind in 'fcO' else np.promote_types(result.dtype, float)
+    nan_slice = np.empty(shape, dtype=dtype)
     nan_slice.fill(np.nan) # ...filled with NaNs
 
     # Insert as first element
